@@ -113,6 +113,10 @@ func verifLocksFree() bool {
 	return true
 }
 func verifFlag(name string) bool   { return verifFlags[name] }
+
+// verifSymbolic is true in the symbolic run only (obligations over ghost state of summaries that
+// exist only there).
+func verifSymbolic() bool { return false }
 func verifCase(name string) int {
 	for f := range verifFlags {
 		if strings.HasPrefix(f, name+"=") {
